@@ -139,6 +139,14 @@ class AsynctelnetTransport(AsyncTransport):
     async def open(self) -> None:
         self._pre_open_closing_log(closing=False)
 
+        # a (re)opened connection is a new telnet session: forget whatever a previous session left
+        # in the buffers, its eof state and the count of control characters already answered
+        self._eof = False
+        self._raw_buf = b""
+        self._cooked_buf = b""
+        self._control_buf = b""
+        self._control_char_sent_counter = 0
+
         try:
             fut = asyncio.open_connection(
                 host=self._base_transport_args.host, port=self._base_transport_args.port
